@@ -4,7 +4,7 @@ import MesonModel.Crash.Model
 driver commands of area `crash` (C09)
 
   crash <cmd>|<init>|<effects>|<k>|<mode>   state after a kill at effect k (mode b = before, t = inside) + recovery verdict
-  scan  <cmd>|<init>|<effects>              number of crash states and the unacceptable ones
+  scan  <cmd>|<init>|<effects>              number of crash points and the unacceptable ones as k:mode:verdict
 
   <cmd>      setup | reconfigure | wipe | configure
   <init>     `;`-separated  id:st      st = a (absent) | d (dir) | t (torn) | o0 | o1 | o2 (ok older/old/new)
@@ -109,10 +109,17 @@ def handle (cmd : String) (fs : List String) : String :=
   | "scan", [c, ini, effs] =>
     match parseCmd c, parseInit ini, parseEffects effs with
     | some c, some ini, some effs =>
-      let sc : Scenario := { name := "", cmd := c, init := ini, trace := effs }
-      let bad := badPoints sc
-      toString (crashStates sc.fs0 effs).length ++ "|" ++
-        ";".intercalate (bad.map (fun (i, v) => toString i ++ ":" ++ showVerdict v))
+      let fs0 := FS.ofList ini
+      let pts := (List.range (effs.length + 1)).flatMap (fun k =>
+        let hasMid := match effs[k]? with
+          | some e => (mid (run fs0 (effs.take k)) e).isSome
+          | none => false
+        if hasMid then [(k, false), (k, true)] else [(k, false)])
+      let bad := pts.filterMap (fun (k, t) =>
+        let v := recover (crashAt fs0 effs k t)
+        if acceptable c v then none
+        else some (toString k ++ ":" ++ (if t then "t" else "b") ++ ":" ++ showVerdict v))
+      toString pts.length ++ "|" ++ ";".intercalate bad
     | _, _, _ => "bad-args"
   | _, _ => "bad-op"
 
